@@ -171,6 +171,31 @@ func (in *Interp) installStubs3() {
 		}
 		return Tuple{in.bigSet(a[0].(Ptr), st.BVConst(v, BigW)), st.T}
 	}
+	S["(*math/big.Int).Set"] = func(in *Interp, a []Value) Value { return in.bigSet(a[0].(Ptr), in.bigGet(a[1].(Ptr))) }
+	S["(*math/big.Int).SetInt64"] = func(in *Interp, a []Value) Value {
+		return in.bigSet(a[0].(Ptr), st.Resize(a[1].(*smt.Term), BigW, true))
+	}
+	S["(*math/big.Int).SetUint64"] = func(in *Interp, a []Value) Value {
+		return in.bigSet(a[0].(Ptr), st.Resize(a[1].(*smt.Term), BigW, false))
+	}
+	S["(*math/big.Int).Lsh"] = func(in *Interp, a []Value) Value {
+		n := in.concInt(a[2], "big.Int.Lsh count")
+		if n < 0 || n > 150 {
+			abortf("unsupported: big.Int.Lsh by %d", n)
+		}
+		k := st.BVConst(new(big.Int).Lsh(big.NewInt(1), uint(n)), BigW)
+		return in.bigSet(a[0].(Ptr), st.Bin(smt.OpBvMul, in.bigGet(a[1].(Ptr)), k))
+	}
+	S["(*math/big.Int).Quo"] = func(in *Interp, a []Value) Value {
+		in.bigNonZero(a[2].(Ptr))
+		return in.bigSet(a[0].(Ptr), st.Bin(smt.OpBvSdiv, in.bigGet(a[1].(Ptr)), in.bigGet(a[2].(Ptr))))
+	}
+	S["(*math/big.Int).QuoRem"] = func(in *Interp, a []Value) Value {
+		in.bigNonZero(a[2].(Ptr))
+		x, y := in.bigGet(a[1].(Ptr)), in.bigGet(a[2].(Ptr))
+		in.bigSet(a[3].(Ptr), st.Bin(smt.OpBvSrem, x, y))
+		return Tuple{in.bigSet(a[0].(Ptr), st.Bin(smt.OpBvSdiv, x, y)), a[3]}
+	}
 	S["(*math/big.Int).IsInt64"] = func(in *Interp, a []Value) Value {
 		x := in.bigGet(a[0].(Ptr))
 		lo := st.BVConst(new(big.Int).Neg(new(big.Int).Lsh(big.NewInt(1), 63)), BigW)
